@@ -64,6 +64,7 @@ structure SimInv2 (I : Sim → Prop) (SendOk : Prio → Ctl → Prop) : Prop whe
   cancel : ∀ x aw, I x → I (cancelSend x aw)
   sendOne : ∀ x p c, SendOk p c → I x → I (sendOne x p c)
   finish : ∀ x aw, I x → I (finishSend x aw)
+  clone : ∀ x f, I x → I (addWaiter x f)
 
 variable {I : Sim → Prop} {SendOk : Prio → Ctl → Prop}
 
@@ -143,6 +144,12 @@ theorem SimInv2.stepOp (H : SimInv2 I SendOk) {x : Sim} (o : Op) (ho : OpOkFor2 
   | inject p cs aw =>
     simp only [Jm.stepOp] at hy
     exact injectAll_ind I p cs aw (fun z s' hz hs' => H.turns z hz s' hs') (fun z hz => H.doSend p cs aw ho hz) 50 h y hy
+  | clone w =>
+    simp only [Jm.stepOp, List.mem_singleton] at hy; subst hy
+    unfold cloneWaiter
+    split
+    · exact H.clone _ _ h
+    · exact H.cancel x true h
 
 theorem SimInv2.runOps (H : SimInv2 I SendOk) (ops : List Op) (hok : ∀ o ∈ ops, OpOkFor2 SendOk o) {x : Sim} (h : I x) :
     ∀ y ∈ runOps x ops, I y := by
